@@ -2,7 +2,7 @@
 
 Decision-table enumeration: all 32 combinations of the report-request flags
 (reception, forwarding, delivery, deletion, status time) x report-to
-{dtn:none, a node, a node with a clockless subject} x 16 processing outcomes
+{dtn:none, a node, a node with a clockless subject} x 19 processing outcomes
 (deliver, forward, forward with fragmentation, delete by route, no matching
 route, three kinds of security failure, forward without transmit route,
 route MTU below the headers (with and without payload octets), first fragment
@@ -45,12 +45,18 @@ OUTCOMES = {
     # matching entry of the receive table says forward / delete: it is delivered, nothing else
     'own-endpoint-under-forward-table': ('dtn://node/', {'receive', 'deliver'}),
     'own-endpoint-under-delete-table': ('dtn://node/', {'receive', 'deliver'}),
+    # an integrity block whose data cannot be decoded at all, for an application endpoint and for the node's own endpoint
+    'security-failure-bib-undecodable': ('dtn://node/secure', {'receive', 'delete'}),
+    'own-endpoint-bib-undecodable': ('dtn://node/', {'receive', 'delete'}),
+    # an endpoint whose ID merely begins with the node ID is not the administrative endpoint: the table (forward) decides
+    'node-prefix-endpoint-under-forward-table': ('dtn://node/app7', {'receive', 'forward'}),
     # the convergence layer refuses the bundle (error reply to the send call) while the small report still gets through
     'forward-refused-by-the-cl': ('dtn://far/app', {'receive', 'delete'}),
 }
 
 
-REPORT_REQUIRED = ('deliver', 'forward', 'forward-fragmented', 'delete-by-route', 'own-endpoint-under-forward-table', 'own-endpoint-under-delete-table')
+FORWARDED = ('forward', 'forward-fragmented', 'node-prefix-endpoint-under-forward-table')
+REPORT_REQUIRED = ('node-prefix-endpoint-under-forward-table', 'deliver', 'forward', 'forward-fragmented', 'delete-by-route', 'own-endpoint-under-forward-table', 'own-endpoint-under-delete-table')
 
 
 def world_for(outcome):
@@ -61,6 +67,9 @@ def world_for(outcome):
         rx = [('^dtn://node/$', 'delete'), ('^dtn://.*', 'forward')]
     tx = [('^dtn://far/.*', 'dtn://next/', None), ('^dtn://farfrag/.*', 'dtn://next/', 120), ('^dtn://fartiny/.*', 'dtn://next/', 60),
           ('^dtn://rpt/.*', 'dtn://next/', None), ('^ipn:9\\..*', 'dtn://next/', None), ('^ipn:977000\\.100\\..*', 'dtn://next/', None)]
+    if outcome == 'node-prefix-endpoint-under-forward-table':
+        rx = [('^dtn://.*', 'forward')]
+        tx = tx + [('^dtn://node/.*', 'dtn://next/', None)]
     return BpWorld(dict(node_id=NODE, rx_routes=rx, tx_routes=tx, cl_refuse_over=(260 if outcome == 'forward-refused-by-the-cl' else None)))
 
 
@@ -103,6 +112,11 @@ def bundle_for(outcome, flags, report_to, seq=1, subject='clock'):
     if outcome == 'security-failure-bcb-context':
         asb = dict(targets=[1], context=99, flags=0, source='dtn://src/', params=[], results=[[(1, b'xx')]])
         blocks.insert(0, dict(type=B.T_BCB, num=2, flags=0, crc_type=0, data=B.enc_asb(asb)))
+    if outcome in ('security-failure-bib-undecodable', 'own-endpoint-bib-undecodable'):
+        blocks.insert(0, dict(type=B.T_BIB, num=2, flags=0, crc_type=0, data=b'\x00'))
+    if outcome == 'own-endpoint-bib-undecodable':
+        blocks[-1]['data'] = B.enc_status_report([(True, None), (False, None), (False, None), (False, None)], 0,
+                                                 'dtn://elsewhere/app', (700000000001, 3))
     if outcome == 'security-failure-bcb-undecodable':
         blocks.insert(0, dict(type=B.T_BCB, num=2, flags=0, crc_type=0, data=b'\x01\x02\x03'))
     if outcome == 'security-failure':
@@ -162,9 +176,9 @@ def check_case(outcome, flagbits, report_to, subject='clock'):
             reports.append(dec)
         else:
             data_bundles.append(dec)
-    if outcome in ('forward', 'forward-fragmented') and not data_bundles:
+    if outcome in FORWARDED and not data_bundles:
         bad('bundle-not-forwarded-in-reference-scenario', dict(), 'scenario set-up expects a transmission')
-    if outcome not in ('forward', 'forward-fragmented') and data_bundles:
+    if outcome not in FORWARDED and data_bundles:
         bad('unexpected-data-bundle', dict(), '%d data bundles sent' % len(data_bundles))
     allowed = report_to != 'dtn:none' and bool(requested & occurred)
     if reports and not allowed:
@@ -208,7 +222,7 @@ def check_case(outcome, flagbits, report_to, subject='clock'):
                 'asserted %r, occurred %r' % (sorted(asserted), sorted(occurred)))
         if not asserted:
             bad('empty-report', dict(), 'no assertion set')
-        if outcome in ('forward', 'forward-fragmented') and 'delete' in asserted:
+        if outcome in FORWARDED and 'delete' in asserted:
             bad('forwarded-bundle-reported-deleted', dict(outcome=outcome), 'reason %r' % body['reason'])
     if allowed and reports and outcome in REPORT_REQUIRED:
         missing = (requested & occurred) - asserted_total
@@ -257,13 +271,13 @@ def scenarios(tier):
 
 ASSUMPTIONS = [
     'an absent report-to endpoint is encoded as dtn:none (RFC 9171 has no other way to omit it)',
-    'the sixteen outcomes are produced by routing tables / a BIB or BCB with an unknown security context / an undecodable BCB / a route MTU of 120 octets',
+    'the nineteen outcomes are produced by routing tables / a BIB or BCB with an unknown security context / an undecodable BCB / a route MTU of 120 octets',
     'thorough tier: also subjects without CRC / with CRC-32, an ipn report-to endpoint, and subjects that are themselves fragments (fragment fields of the report are not judged)',
     'subjects: a bundle with a creation time, one from a clockless source (creation time 0, sequence number, age block), and one whose source and report-to are three-number ipn endpoint IDs',
     'a report is required for deliver / forward / delete-by-route / own-endpoint when a requested action occurred (the title says "exactly when requested"); for the other outcomes only reports that are emitted are judged',
 ]
 
-RULE = ('decision table of 32 flag combinations x (no report-to, report-to, report-to with a clockless subject) x 16 outcomes enumerated completely on a fresh real '
+RULE = ('decision table of 32 flag combinations x (no report-to, report-to, report-to with a clockless subject) x 19 outcomes enumerated completely on a fresh real '
         'agent each; every administrative record reaching the convergence layer is decoded independently and compared '
         'with the reference report; non-trivial = a report was emitted')
 
